@@ -512,10 +512,13 @@ func (e *CExec) oracle() {
 				atd++
 			case "detached":
 				det++
-				if atd == 0 {
-					e.c.Violate(fmt.Sprintf("core: pipe %d: Detached reported without Attached (%v)", k, log), e.Replay())
-				}
 			}
+		}
+		// "Detached … if and only if Attached was (or is being) reported": the goroutine that closes a freshly attached
+		// pipe may enter its Detached callback before the attaching goroutine has entered Attached (both are committed
+		// by then), so the order of the two entries is not judged — only, at this quiescent point, that both are there
+		if det > 0 && atd == 0 {
+			e.c.Violate(fmt.Sprintf("core: pipe %d: Detached reported without Attached (%v)", k, log), e.Replay())
 		}
 		if att > 1 || atd > 1 || det > 1 || (len(log) > 0 && log[0] != "attaching") {
 			e.c.Violate(fmt.Sprintf("core: pipe %d: hook events %v (Attaching exactly once and first, Attached and Detached at most once)", k, log), e.Replay())
